@@ -113,6 +113,7 @@ func check(sc scen) func(x *vsync.Exec) string {
 		}
 		pos := 0
 		prevShort := false
+		anyShort := false
 		ended := ""
 		for _, l := range x.Log {
 			switch {
@@ -145,6 +146,7 @@ func check(sc scen) func(x *vsync.Exec) string {
 				}
 				pos = start + len(got)
 				prevShort = short
+				anyShort = anyShort || short
 			case strings.HasPrefix(l, "end "):
 				ended = strings.Fields(l)[1]
 			}
@@ -163,7 +165,10 @@ func check(sc scen) func(x *vsync.Exec) string {
 				return "V09:eof-reported-as-error"
 			}
 		}
-		if pos != len(s) && !prevShort {
+		// offsets are identified by content; byte values repeat every 251 bytes, so
+		// after a short-buffer gap in a long stream the offset is ambiguous: the
+		// "all data delivered" clause is then only judged for short streams
+		if pos != len(s) && !prevShort && (len(s) <= 251 || !anyShort) {
 			return fmt.Sprintf("V09:end-reported-before-all-data delivered=%d of %d", pos, len(s))
 		}
 		return ""
